@@ -24,7 +24,7 @@ EXPLANATION = ("Every public constructor/setter of Rotation_<double> is executed
                "path condition.")
 BOUNDS = ("all inputs of an instance simultaneously free (free set ALL: every angle, vector and quaternion component is a solver variable) except: gimbal-lock instances (middle angle pinned at "
           "exactly +-pi/2 resp. 0, other two free) and the quaternion-product instance (one quaternion free, the other pinned at an exactly unit rational point, both ways); paths per instance explored "
-          "by flipping decisions up to the budget (quick 2-6 / thorough 6-16 paths per instance); the quaternion/angle-axis round trips of a general rotation run at 7 chosen base points that execute the four Spurrier "
+          "by flipping decisions up to the budget (quick 2-6 / thorough 4-12 paths per instance); the quaternion/angle-axis round trips of a general rotation run at 7 chosen base points that execute the four Spurrier "
           "branches with both canonicalisation signs, all three angles free on each; double precision")
 NOT_COVERED = ("float instantiations; angles -> R -> angles (uniqueness inside the principal domain; only R(convert(R)) = R is proved); setRotationFromApproximateMat33 on a non-orthogonal matrix "
                "(only exact rotations are fed: then it must return the same rotation); the approximately singular neighbourhood |cos| <= 4 eps of the Euler conversions (only the exactly singular "
@@ -46,15 +46,15 @@ def adjust_seeds(inst, seeds, angle_pins, rng, g):
 def instances(tier, seed):
     out = []
     q = tier == "quick"
-    np_ = 6 if q else 16
-    fl = dict(flip_timeout_ms=1500, flips_per_path=8) if q else dict(flip_timeout_ms=10000, flips_per_path=16)
+    np_ = 6 if q else 12
+    fl = dict(flip_timeout_ms=1500, flips_per_path=8) if q else dict(flip_timeout_ms=3000, flips_per_path=10)
     for a in AX:
-        out.append(dict(name="one:%s" % a, args=["one", a], paths=4 if q else 16, base_points=1, **fl))
+        out.append(dict(name="one:%s" % a, args=["one", a], paths=4 if q else 8, base_points=1, **fl))
     for t in "BS":
         for i, j in itertools.product(AX, AX):
-            out.append(dict(name="two:%s:%s%s" % (t, i, j), args=["two", t, i, j], paths=4 if q else 16, base_points=1, **fl))
+            out.append(dict(name="two:%s:%s%s" % (t, i, j), args=["two", t, i, j], paths=4 if q else 8, base_points=1, **fl))
         for n, (i, j, k) in enumerate(itertools.product(AX, AX, AX)):
-            out.append(dict(name="three:%s:%s%s%s" % (t, i, j, k), args=["three", t, i, j, k], paths=2 if q else 6, base_points=1, **fl))
+            out.append(dict(name="three:%s:%s%s%s" % (t, i, j, k), args=["three", t, i, j, k], paths=2 if q else 4, base_points=1, **fl))
             if j != i and j != k:
                 for sg in ("+", "-") if (i != k and not q) else ("+",):
                     out.append(dict(name="lock:%s:%s%s%s%s" % (t, i, j, k, sg), args=["lock", t, i, j, k, sg], paths=1, base_points=1))
@@ -68,7 +68,7 @@ def instances(tier, seed):
     for a in AX:
         out.append(dict(name="oneaxis:%s" % a, args=["oneaxis", a], paths=np_, base_points=1, **fl))
     for i, j in itertools.product(AX, AX):
-        out.append(dict(name="twoaxes:%s%s" % (i, j), args=["twoaxes", i, j], paths=4 if q else 12, base_points=1, **fl))
+        out.append(dict(name="twoaxes:%s%s" % (i, j), args=["twoaxes", i, j], paths=4 if q else 8, base_points=1, **fl))
     out.append(dict(name="algebra", args=["algebra"], base_points=1))
     out.append(dict(name="unitvec", args=["unitvec"], paths=np_, base_points=1, **fl))
     return out
